@@ -577,6 +577,7 @@ func main() {
 			continue
 		}
 		collectStacks(fset, info, t, files)
+		collectShared(fset, info, t, files, isTarget)
 		// package-level variables
 		for _, f := range files {
 			fname := filepath.Base(fset.Position(f.Pos()).Filename)
@@ -671,6 +672,7 @@ func main() {
 	emitSorts(a, sites)
 	emitResets(a)
 	emitStacks(a)
+	emitShared(a)
 }
 
 func indexOfIdent(ns []*ast.Ident, n *ast.Ident) int {
